@@ -50,7 +50,14 @@ func (e *Exec) ioEOF(st *State, name string) *IfaceV {
 		if p.Pkg.Path() == "io" {
 			if g, ok := p.Members[name].(*ssa.Global); ok {
 				ptr := e.globalPtr(g).(*PtrV)
-				return st.LoadLoc(e.locOf(ptr)).(*IfaceV)
+				v := st.LoadLoc(e.locOf(ptr)).(*IfaceV)
+				// the sentinel errors of package io are non-nil and pairwise distinct
+				st.AssumeFact(Not(Eq(v.Tid, IntConst(0))))
+				if name == "ErrUnexpectedEOF" {
+					o := e.ioEOF(st, "EOF")
+					st.AssumeFact(Not(Eq(v.Ref, o.Ref)))
+				}
+				return v
 			}
 		}
 	}
@@ -304,6 +311,15 @@ func (e *Exec) ghostPrimitive(st *State, fr *Frame, fn *ssa.Function, args []Val
 		name = "ghost_" + strings.TrimPrefix(name, "ghost_old_")
 	}
 	idx := func(v Value) *Term { return v.(*Term) }
+	if s != st {
+		// stream invariants learned about the entry state are facts of the current path as well
+		nf := len(s.facts)
+		defer func() {
+			for _, f := range s.facts[nf:] {
+				st.AssumeFact(f)
+			}
+		}()
+	}
 	switch name {
 	case "ghost_rd_pos":
 		return one(st, e.rd(s, streamRef(args[0])).pos), true
